@@ -271,6 +271,11 @@ func stateOf(r c12ops.Result) string {
 			return "A"
 		}
 		return "B"
+	case "InjectDevices(a1,b1)":
+		if strings.HasPrefix(r.Obs, "[] false") {
+			return "B"
+		}
+		return "A"
 	}
 	return "A"
 }
@@ -294,12 +299,12 @@ func scenarios(thorough bool) []Scen {
 	var out []Scen
 	ops := c12ops.All()
 	for _, auto := range []bool{false, true} {
-		for _, q := range []string{"ListDevices", "GetDevice", "InjectDevices"} {
+		for _, q := range []string{"ListDevices", "GetDevice", "InjectDevices", "InjectDevices(a1,b1)"} {
 			out = append(out, Scen{Kind: "switch", Ops: []string{q, "Switch+Refresh"}, Auto: auto})
 		}
 		out = append(out, Scen{Kind: "switch", Ops: []string{"ListDevices", "Switch+Refresh", "InjectDevices"}, Auto: auto})
 		// the switch made by the library's own writer, against queries and against another thread's refresh
-		for _, q := range []string{"ListDevices", "GetDevice", "InjectDevices"} {
+		for _, q := range []string{"ListDevices", "GetDevice", "InjectDevices", "InjectDevices(a1,b1)"} {
 			out = append(out, Scen{Kind: "switch", Ops: []string{q, "WriteSpec(state B)+Refresh"}, Auto: auto})
 		}
 		out = append(out, Scen{Kind: "switch", Ops: []string{"ListDevices", "WriteSpec(state B)+Refresh", "Refresh"}, Auto: auto})
